@@ -18,9 +18,6 @@ theorem take_append_drop_add (bs : Bytes) (n m : Nat) :
 
 /-! ## Part 1: Spec codec -/
 
-/-- record-level well-formedness w.r.t. a record size -/
-def SigWF (size : Nat) (o d : Bytes) : Prop := o.length = 16 ∧ d.length + 16 = size
-
 /-- `Spec.SList.WF` plus "the SignatureSize field fits its 32 bits".  `WF` alone bounds only
     `listSize`, which says nothing about `size` when the list has no entries. -/
 def Spec.SList.WF32 (l : Spec.SList) : Prop := l.WF ∧ l.size < 2^32
@@ -691,5 +688,544 @@ theorem Spec.encDb_prefix (ms ls : List Spec.SList) (q : Bytes) (hm : ∀ l ∈ 
       obtain ⟨i1, i2⟩ := ih ls (fun x hx => hm x (by simp [hx])) (fun x hx => hl x (by simp [hx])) e.symm
       exact ⟨by simp only [List.length_cons, List.take_succ_cons]; rw [← i1],
              by simpa using i2⟩
+
+/-! ## Part 4: database operations (C09) -/
+
+/-- representation invariant of one list: canonical form (`Canon`) and no duplicate entry -/
+def Impl.SList.Inv (l : Impl.SList) : Prop :=
+  l.type.length = 16 ∧ l.hdrSize = 0 ∧ l.hdr = [] ∧ 16 ≤ l.size ∧
+  l.listSize = 28 + l.sigs.length * l.size ∧
+  (∀ s ∈ l.sigs, s.owner.length = 16 ∧ s.data.length + 16 = l.size) ∧ l.sigs.Nodup
+
+def Impl.Db.Inv (db : Impl.Db) : Prop := ∀ l ∈ db, l.Inv
+
+theorem Impl.SList.Inv.canon {l : Impl.SList} (h : l.Inv) : l.Canon :=
+  ⟨h.1, h.2.1, h.2.2.1, h.2.2.2.1, h.2.2.2.2.1, h.2.2.2.2.2.1⟩
+
+theorem Impl.SList.inv_of_canon {l : Impl.SList} (h : l.Canon) (hnd : l.sigs.Nodup) : l.Inv :=
+  ⟨h.1, h.2.1, h.2.2.1, h.2.2.2.1, h.2.2.2.2.1, h.2.2.2.2.2, hnd⟩
+
+theorem Impl.Db.inv_cons {l : Impl.SList} {ls : Impl.Db} :
+    Impl.Db.Inv (l :: ls) ↔ l.Inv ∧ Impl.Db.Inv ls := by
+  simp [Impl.Db.Inv]
+
+/-- PEM normalisation is idempotent (decoding the DER it produced changes nothing) -/
+def Impl.Env.Idem (E : Impl.Env) : Prop := ∀ t d, E.norm t (E.norm t d) = E.norm t d
+
+/-- it is whenever the output of the PEM decoder is never itself PEM -/
+theorem Impl.Env.idem_of_pem (E : Impl.Env)
+    (h : ∀ d x, E.pemDecode d = some x → E.pemDecode x = none) : E.Idem := by
+  intro t d
+  by_cases ht : t = Impl.guidX509
+  · cases hp : E.pemDecode d with
+    | none => simp [Impl.Env.norm, ht, hp]
+    | some x => simp [Impl.Env.norm, ht, hp, h d x hp]
+  · simp [Impl.Env.norm, ht]
+
+theorem Impl.schemes_length : ∀ t ∈ Impl.schemes, t.length = 16 := by decide
+
+/-! ### abstraction -/
+
+theorem Impl.abs_nil : Impl.abs [] = [] := rfl
+
+theorem Impl.abs_cons (l : Impl.SList) (ls : Impl.Db) :
+    Impl.abs (l :: ls) = (l.sigs.map fun s => (l.type, s.owner, s.data)) ++ Impl.abs ls := by
+  simp [Impl.abs]
+
+theorem Impl.abs_append (a b : Impl.Db) : Impl.abs (a ++ b) = Impl.abs a ++ Impl.abs b := by
+  simp [Impl.abs]
+
+theorem Impl.SList.has_iff (l : Impl.SList) (o d : Bytes) :
+    l.has o d = true ↔ (⟨o, d⟩ : Impl.SData) ∈ l.sigs := by
+  simp [Impl.SList.has]
+
+theorem Impl.mem_abs_cons {l : Impl.SList} {ls : Impl.Db} {t o d : Bytes} :
+    (t, o, d) ∈ Impl.abs (l :: ls) ↔
+      (l.type = t ∧ (⟨o, d⟩ : Impl.SData) ∈ l.sigs) ∨ (t, o, d) ∈ Impl.abs ls := by
+  rw [Impl.abs_cons, List.mem_append, List.mem_map]
+  constructor
+  · rintro (⟨s, hs, h⟩ | h)
+    · simp only [Prod.mk.injEq] at h
+      obtain ⟨rfl, rfl, rfl⟩ := h
+      exact Or.inl ⟨rfl, hs⟩
+    · exact Or.inr h
+  · rintro (⟨rfl, hs⟩ | h)
+    · exact Or.inl ⟨⟨o, d⟩, hs, rfl⟩
+    · exact Or.inr h
+
+theorem Impl.has_iff (db : Impl.Db) (t o d : Bytes) :
+    db.has t o d = true ↔ (t, o, d) ∈ Impl.abs db := by
+  induction db with
+  | nil => simp [Impl.Db.has, Impl.abs]
+  | cons l ls ih =>
+    rw [Impl.mem_abs_cons, ← ih]
+    simp [Impl.Db.has, Impl.SList.has]
+
+theorem Impl.hasAll_iff (db : Impl.Db) (t : Bytes) (sigs : List Impl.SData) :
+    db.hasAll t sigs = true ↔ ∀ s ∈ sigs, (t, s.owner, s.data) ∈ Impl.abs db := by
+  simp only [Impl.Db.hasAll, List.all_eq_true, Impl.has_iff]
+
+/-! ### append -/
+
+theorem Impl.appendBytes_ok {E : Impl.Env} {l l' : Impl.SList} {o d : Bytes}
+    (h : l.appendBytes E o d = .ok l') :
+    (⟨o, d⟩ : Impl.SData) ∉ l.sigs ∧
+    ¬(l.type = Impl.guidSha256 ∧ (E.norm l.type d).length ≠ 32) ∧
+    (l.sigs = [] ∨ (E.norm l.type d).length + 16 = l.size) ∧
+    l' = { l with sigs := l.sigs ++ [⟨o, E.norm l.type d⟩],
+                  size := (E.norm l.type d).length + 16,
+                  listSize := l.listSize + ((E.norm l.type d).length + 16) } := by
+  simp only [Impl.SList.appendBytes] at h
+  split at h
+  · simp at h
+  rename_i h1
+  split at h
+  · simp at h
+  rename_i h2
+  split at h
+  · simp at h
+  rename_i h3
+  simp only [Except.ok.injEq] at h
+  refine ⟨?_, h2, ?_, h.symm⟩
+  · rw [← Impl.SList.has_iff]; exact h1
+  · by_cases hn : l.sigs = []
+    · exact Or.inl hn
+    · right
+      apply Decidable.byContradiction
+      intro hne
+      exact h3 ⟨hn, hne⟩
+
+theorem Impl.appendBytes_error {E : Impl.Env} {l : Impl.SList} {o d : Bytes} {e : Impl.AErr}
+    (h : l.appendBytes E o d = .error e) :
+    (⟨o, d⟩ : Impl.SData) ∈ l.sigs ∨
+    (l.type = Impl.guidSha256 ∧ (E.norm l.type d).length ≠ 32) ∨
+    (l.sigs ≠ [] ∧ (E.norm l.type d).length + 16 ≠ l.size) := by
+  simp only [Impl.SList.appendBytes] at h
+  split at h
+  · rename_i h1; exact Or.inl ((Impl.SList.has_iff l o d).mp h1)
+  split at h
+  · rename_i h2; exact Or.inr (Or.inl h2)
+  split at h
+  · rename_i h3; exact Or.inr (Or.inr h3)
+  · simp at h
+
+theorem Impl.appendBytes_sha_error {E : Impl.Env} {l : Impl.SList} {o d : Bytes}
+    (ht : l.type = Impl.guidSha256) (hl : (E.norm l.type d).length ≠ 32) :
+    ∃ e, l.appendBytes E o d = .error e := by
+  simp only [Impl.SList.appendBytes]
+  split
+  · exact ⟨_, rfl⟩
+  · rw [if_pos ⟨ht, hl⟩]; exact ⟨_, rfl⟩
+
+theorem Impl.appendBytes_inv {E : Impl.Env} {l l' : Impl.SList} {o d : Bytes}
+    (hty : l.type.length = 16) (hH : l.hdrSize = 0) (hhdr : l.hdr = [])
+    (hLS : l.listSize = 28 + l.sigs.length * l.size)
+    (hs : ∀ s ∈ l.sigs, s.owner.length = 16 ∧ s.data.length + 16 = l.size)
+    (hnd : l.sigs.Nodup) (ho : o.length = 16)
+    (hnew : (⟨o, E.norm l.type d⟩ : Impl.SData) ∉ l.sigs)
+    (h : l.appendBytes E o d = .ok l') : l'.Inv := by
+  obtain ⟨_, _, h3, e⟩ := Impl.appendBytes_ok h
+  clear h
+  generalize E.norm l.type d = d' at *
+  subst e
+  refine ⟨hty, hH, hhdr, ?_, ?_, ?_, ?_⟩
+  · show 16 ≤ d'.length + 16
+    omega
+  · show l.listSize + (d'.length + 16) =
+      28 + (l.sigs ++ [(⟨o, d'⟩ : Impl.SData)]).length * (d'.length + 16)
+    rw [List.length_append, List.length_singleton, Nat.succ_mul, hLS]
+    rcases h3 with h3 | h3
+    · rw [h3]; simp
+    · rw [h3]; omega
+  · intro s hs'
+    show s.owner.length = 16 ∧ s.data.length + 16 = d'.length + 16
+    have hs'' : s ∈ l.sigs ++ [(⟨o, d'⟩ : Impl.SData)] := hs'
+    rcases List.mem_append.mp hs'' with hm | hm
+    · rcases h3 with h3 | h3
+      · rw [h3] at hm; simp at hm
+      · rw [h3]; exact hs s hm
+    · simp only [List.mem_singleton] at hm
+      subst hm; exact ⟨ho, rfl⟩
+  · show (l.sigs ++ [(⟨o, d'⟩ : Impl.SData)]).Nodup
+    rw [List.nodup_append]
+    refine ⟨hnd, by simp, ?_⟩
+    intro a ha b hb hab
+    simp only [List.mem_singleton] at hb
+    subst hb; subst hab
+    exact hnew ha
+
+theorem Impl.appendInto_abs {E : Impl.Env} {t o d : Bytes} {db db' : Impl.Db}
+    (h : Impl.appendInto E t o d db = .ok db') :
+    ∃ pre post, Impl.abs db = pre ++ post ∧ Impl.abs db' = pre ++ (t, o, E.norm t d) :: post := by
+  induction db generalizing db' with
+  | nil =>
+    simp only [Impl.appendInto] at h
+    split at h
+    · rename_i l' h1
+      simp only [Except.ok.injEq] at h; subst h
+      obtain ⟨_, _, _, rfl⟩ := Impl.appendBytes_ok h1
+      exact ⟨[], [], rfl, by simp [Impl.abs, Impl.newList]⟩
+    · simp at h
+  | cons l ls ih =>
+    simp only [Impl.appendInto] at h
+    split at h
+    · rename_i hc
+      split at h
+      · rename_i l' h1
+        simp only [Except.ok.injEq] at h; subst h
+        obtain ⟨_, _, _, rfl⟩ := Impl.appendBytes_ok h1
+        refine ⟨l.sigs.map (fun s => (l.type, s.owner, s.data)), Impl.abs ls, Impl.abs_cons l ls, ?_⟩
+        rw [Impl.abs_cons]
+        simp [hc.1]
+      · simp at h
+    · split at h
+      · rename_i ls' h1
+        simp only [Except.ok.injEq] at h; subst h
+        obtain ⟨pre, post, e1, e2⟩ := ih h1
+        refine ⟨l.sigs.map (fun s => (l.type, s.owner, s.data)) ++ pre, post, ?_, ?_⟩
+        · rw [Impl.abs_cons, e1, List.append_assoc]
+        · rw [Impl.abs_cons, e2, List.append_assoc]
+      · simp at h
+
+theorem Impl.appendInto_inv {E : Impl.Env} {t o d : Bytes} {db db' : Impl.Db}
+    (hinv : Impl.Db.Inv db) (ho : o.length = 16) (ht : t.length = 16) (hd : E.norm t d = d)
+    (h : Impl.appendInto E t o d db = .ok db') : Impl.Db.Inv db' := by
+  induction db generalizing db' with
+  | nil =>
+    simp only [Impl.appendInto] at h
+    split at h
+    · rename_i l' h1
+      simp only [Except.ok.injEq] at h; subst h
+      intro x hx
+      simp only [List.mem_singleton] at hx; subst hx
+      exact Impl.appendBytes_inv (l := Impl.newList t) ht rfl rfl (by simp [Impl.newList])
+        (by simp [Impl.newList]) (by simp [Impl.newList]) ho (by simp [Impl.newList]) h1
+    · simp at h
+  | cons l ls ih =>
+    obtain ⟨hl, hls⟩ := Impl.Db.inv_cons.mp hinv
+    simp only [Impl.appendInto] at h
+    split at h
+    · rename_i hc
+      split at h
+      · rename_i l' h1
+        simp only [Except.ok.injEq] at h; subst h
+        obtain ⟨hty, hH, hhdr, _, hLS, hs, hnd⟩ := hl
+        have hnew : (⟨o, E.norm l.type d⟩ : Impl.SData) ∉ l.sigs := by
+          rw [hc.1, hd]; exact (Impl.appendBytes_ok h1).1
+        exact Impl.Db.inv_cons.mpr ⟨Impl.appendBytes_inv hty hH hhdr hLS hs hnd ho hnew h1, hls⟩
+      · simp at h
+    · split at h
+      · rename_i ls' h1
+        simp only [Except.ok.injEq] at h; subst h
+        exact Impl.Db.inv_cons.mpr ⟨hl, ih hls h1⟩
+      · simp at h
+
+theorem Impl.appendInto_error {E : Impl.Env} {t o d : Bytes} {db : Impl.Db} {e : Impl.AErr}
+    (hd : E.norm t d = d) (h : Impl.appendInto E t o d db = .error e) :
+    (t, o, d) ∈ Impl.abs db ∨ (t = Impl.guidSha256 ∧ d.length ≠ 32) := by
+  induction db with
+  | nil =>
+    simp only [Impl.appendInto] at h
+    split at h
+    · simp at h
+    · rename_i e' h1
+      rcases Impl.appendBytes_error h1 with h2 | h2 | h2
+      · simp [Impl.newList] at h2
+      · right
+        have h2' : t = Impl.guidSha256 ∧ (E.norm t d).length ≠ 32 := h2
+        rw [hd] at h2'; exact h2'
+      · simp [Impl.newList] at h2
+  | cons l ls ih =>
+    simp only [Impl.appendInto] at h
+    split at h
+    · rename_i hc
+      split at h
+      · simp at h
+      · rename_i e' h1
+        rcases Impl.appendBytes_error h1 with h2 | h2 | h2
+        · exact Or.inl (Impl.mem_abs_cons.mpr (Or.inl ⟨hc.1, h2⟩))
+        · rw [hc.1, hd] at h2; exact Or.inr h2
+        · rw [hc.1, hd] at h2; exact absurd hc.2.symm h2.2
+    · split at h
+      · simp at h
+      · rename_i e' h1
+        simp only [Except.error.injEq] at h; subst h
+        rcases ih h1 with h2 | h2
+        · exact Or.inl (Impl.mem_abs_cons.mpr (Or.inr h2))
+        · exact Or.inr h2
+
+theorem Impl.appendInto_sha_error {E : Impl.Env} {t o d : Bytes} (db : Impl.Db)
+    (hd : E.norm t d = d) (ht : t = Impl.guidSha256) (hl : d.length ≠ 32) :
+    ∃ e, Impl.appendInto E t o d db = .error e := by
+  induction db with
+  | nil =>
+    obtain ⟨e, he⟩ := Impl.appendBytes_sha_error (E := E) (l := Impl.newList t) (o := o) (d := d) ht
+      (by show (E.norm t d).length ≠ 32; rw [hd]; exact hl)
+    simp only [Impl.appendInto, he]; exact ⟨e, rfl⟩
+  | cons l ls ih =>
+    simp only [Impl.appendInto]
+    split
+    · rename_i hc
+      obtain ⟨e, he⟩ := Impl.appendBytes_sha_error (E := E) (l := l) (o := o) (d := d)
+        (hc.1.trans ht) (by rw [hc.1, hd]; exact hl)
+      rw [he]; exact ⟨e, rfl⟩
+    · obtain ⟨e, he⟩ := ih
+      rw [he]; exact ⟨e, rfl⟩
+
+theorem Impl.Db.append_ok {E : Impl.Env} {db db' : Impl.Db} {t o d : Bytes}
+    (h : db.append E t o d = .ok db') :
+    t ∈ Impl.schemes ∧ (t, o, E.norm t d) ∉ Impl.abs db ∧
+      Impl.appendInto E t o (E.norm t d) db = .ok db' := by
+  unfold Impl.Db.append at h
+  split at h
+  · simp at h
+  rename_i h1
+  split at h
+  · simp at h
+  rename_i h2
+  refine ⟨by simpa using h1, ?_, h⟩
+  rw [← Impl.has_iff]; exact h2
+
+theorem Impl.Db.append_error_iff {E : Impl.Env} {db : Impl.Db} {t o d : Bytes}
+    (hidem : E.norm t (E.norm t d) = E.norm t d) :
+    (∃ e, db.append E t o d = .error e) ↔
+      (t ∉ Impl.schemes ∨ (t, o, E.norm t d) ∈ Impl.abs db ∨
+        (t = Impl.guidSha256 ∧ (E.norm t d).length ≠ 32)) := by
+  unfold Impl.Db.append
+  by_cases h1 : t ∈ Impl.schemes
+  · have h1' : (!Impl.schemes.contains t) = false := by simpa using h1
+    rw [h1']
+    by_cases h2 : (t, o, E.norm t d) ∈ Impl.abs db
+    · have h2' := (Impl.has_iff db t o (E.norm t d)).mpr h2
+      rw [h2']
+      exact ⟨fun _ => Or.inr (Or.inl h2), fun _ => ⟨_, rfl⟩⟩
+    · have h2' : db.has t o (E.norm t d) = false := by
+        cases hh : db.has t o (E.norm t d) with
+        | false => rfl
+        | true => exact absurd ((Impl.has_iff _ _ _ _).mp hh) h2
+      rw [h2']
+      simp only [Bool.false_eq_true, if_false]
+      constructor
+      · rintro ⟨e, he⟩
+        rcases Impl.appendInto_error hidem he with h3 | h3
+        · exact absurd h3 h2
+        · exact Or.inr (Or.inr h3)
+      · rintro (h3 | h3 | h3)
+        · exact absurd h1 h3
+        · exact absurd h3 h2
+        · exact Impl.appendInto_sha_error db hidem h3.1 h3.2
+  · have h1' : (!Impl.schemes.contains t) = true := by simpa using h1
+    rw [h1']
+    exact ⟨fun _ => Or.inl h1, fun _ => ⟨_, rfl⟩⟩
+
+/-! ### remove -/
+
+theorem Impl.erase_inv {l : Impl.SList} {o d : Bytes} (hl : l.Inv)
+    (hmem : (⟨o, d⟩ : Impl.SData) ∈ l.sigs) (hlen : l.sigs.length ≠ 1) :
+    Impl.SList.Inv { l with sigs := l.sigs.erase ⟨o, d⟩, listSize := l.listSize - l.size } ∧
+      l.sigs.erase ⟨o, d⟩ ≠ [] := by
+  obtain ⟨hty, hH, hhdr, hS, hLS, hs, hnd⟩ := hl
+  have hpos := List.length_pos_of_mem hmem
+  obtain ⟨k, hk⟩ : ∃ k, l.sigs.length = k + 1 := ⟨l.sigs.length - 1, by omega⟩
+  have hel : (l.sigs.erase ⟨o, d⟩).length = k := by
+    rw [List.length_erase_of_mem hmem, hk]; rfl
+  refine ⟨⟨hty, hH, hhdr, hS, ?_, ?_, hnd.erase _⟩, ?_⟩
+  · show l.listSize - l.size = 28 + (l.sigs.erase ⟨o, d⟩).length * l.size
+    rw [hel, hLS, hk, Nat.succ_mul]; omega
+  · intro s hs'
+    exact hs s (List.mem_of_mem_erase hs')
+  · intro hnil
+    rw [hnil] at hel
+    simp at hel
+    omega
+
+theorem Impl.removeFrom_ok {t o d : Bytes} {db db' : Impl.Db} {b : Bool}
+    (hinv : Impl.Db.Inv db) (h : Impl.removeFrom t o d db b = .ok db') :
+    Impl.Db.Inv db' ∧
+    (∃ pre post, Impl.abs db = pre ++ (t, o, d) :: post ∧ Impl.abs db' = pre ++ post) ∧
+    ∀ l ∈ db', l.sigs = [] → l ∈ db := by
+  induction db generalizing b db' with
+  | nil => simp [Impl.removeFrom] at h
+  | cons l ls ih =>
+    obtain ⟨hl, hls⟩ := Impl.Db.inv_cons.mp hinv
+    simp only [Impl.removeFrom] at h
+    split at h
+    · rename_i hc
+      split at h
+      · rename_i hhas
+        have hmem : (⟨o, d⟩ : Impl.SData) ∈ l.sigs := (Impl.SList.has_iff l o d).mp hhas
+        split at h
+        · rename_i hlen
+          simp only [Except.ok.injEq] at h; subst h
+          have hone : l.sigs = [⟨o, d⟩] := by
+            cases hsg : l.sigs with
+            | nil => rw [hsg] at hmem; simp at hmem
+            | cons x xs =>
+              rw [hsg] at hlen hmem
+              simp only [List.length_cons, Nat.add_eq_right, List.length_eq_zero_iff] at hlen
+              subst hlen
+              simp only [List.mem_singleton] at hmem
+              rw [hmem]
+          refine ⟨hls, ⟨[], Impl.abs ls, ?_, rfl⟩, fun x hx _ => List.mem_cons_of_mem _ hx⟩
+          rw [Impl.abs_cons, hone, hc.1]; rfl
+        · rename_i hlen
+          simp only [Except.ok.injEq] at h; subst h
+          obtain ⟨hinv', hne⟩ := Impl.erase_inv hl hmem hlen
+          obtain ⟨a, b', _, hsplit, herase⟩ := List.exists_erase_eq hmem
+          refine ⟨Impl.Db.inv_cons.mpr ⟨hinv', hls⟩,
+            ⟨a.map (fun s => (l.type, s.owner, s.data)),
+             b'.map (fun s => (l.type, s.owner, s.data)) ++ Impl.abs ls, ?_, ?_⟩, ?_⟩
+          · rw [Impl.abs_cons, hsplit, ← hc.1]; simp
+          · rw [Impl.abs_cons]
+            simp only [herase, List.map_append, List.append_assoc]
+          · intro x hx hxe
+            rcases List.mem_cons.mp hx with rfl | hx
+            · exact absurd hxe hne
+            · exact List.mem_cons_of_mem _ hx
+      · split at h
+        · rename_i ls' h1
+          simp only [Except.ok.injEq] at h; subst h
+          obtain ⟨i1, ⟨pre, post, e1, e2⟩, i3⟩ := ih hls h1
+          refine ⟨Impl.Db.inv_cons.mpr ⟨hl, i1⟩,
+            ⟨l.sigs.map (fun s => (l.type, s.owner, s.data)) ++ pre, post, ?_, ?_⟩, ?_⟩
+          · rw [Impl.abs_cons, e1, List.append_assoc]
+          · rw [Impl.abs_cons, e2, List.append_assoc]
+          · intro x hx hxe
+            rcases List.mem_cons.mp hx with rfl | hx
+            · exact List.mem_cons_self
+            · exact List.mem_cons_of_mem _ (i3 x hx hxe)
+        · simp at h
+    · split at h
+      · rename_i ls' h1
+        simp only [Except.ok.injEq] at h; subst h
+        obtain ⟨i1, ⟨pre, post, e1, e2⟩, i3⟩ := ih hls h1
+        refine ⟨Impl.Db.inv_cons.mpr ⟨hl, i1⟩,
+          ⟨l.sigs.map (fun s => (l.type, s.owner, s.data)) ++ pre, post, ?_, ?_⟩, ?_⟩
+        · rw [Impl.abs_cons, e1, List.append_assoc]
+        · rw [Impl.abs_cons, e2, List.append_assoc]
+        · intro x hx hxe
+          rcases List.mem_cons.mp hx with rfl | hx
+          · exact List.mem_cons_self
+          · exact List.mem_cons_of_mem _ (i3 x hx hxe)
+      · simp at h
+
+theorem Impl.removeFrom_of_mem {t o d : Bytes} {db : Impl.Db} (b : Bool)
+    (hinv : Impl.Db.Inv db) (hm : (t, o, d) ∈ Impl.abs db) :
+    ∃ db', Impl.removeFrom t o d db b = .ok db' := by
+  induction db generalizing b with
+  | nil => simp [Impl.abs] at hm
+  | cons l ls ih =>
+    obtain ⟨hl, hls⟩ := Impl.Db.inv_cons.mp hinv
+    rw [Impl.mem_abs_cons] at hm
+    simp only [Impl.removeFrom]
+    by_cases hc : l.type = t ∧ l.size = d.length + 16
+    · rw [if_pos hc]
+      by_cases hh : l.has o d = true
+      · rw [if_pos hh]
+        split <;> exact ⟨_, rfl⟩
+      · rw [if_neg hh]
+        rcases hm with hm | hm
+        · exact absurd ((Impl.SList.has_iff l o d).mpr hm.2) hh
+        · obtain ⟨ls', h'⟩ := ih true hls hm
+          rw [h']; exact ⟨_, rfl⟩
+    · rw [if_neg hc]
+      rcases hm with hm | hm
+      · have := (hl.2.2.2.2.2.1 _ hm.2).2
+        exact absurd ⟨hm.1, this.symm⟩ hc
+      · obtain ⟨ls', h'⟩ := ih b hls hm
+        rw [h']; exact ⟨_, rfl⟩
+
+/-! ### reachability -/
+
+theorem Impl.readDb_inv {bs : Bytes} {db : Impl.Db} (h : Impl.readDb bs = some db)
+    (hnd : ∀ l ∈ db, l.sigs.Nodup) : Impl.Db.Inv db := fun l hl =>
+  Impl.SList.inv_of_canon ((Impl.readDb_ok h).2 l hl).1 (hnd l hl)
+
+theorem Impl.appendList_inv {db : Impl.Db} {l : Impl.SList} (hdb : Impl.Db.Inv db) (hl : l.Inv) :
+    Impl.Db.Inv (db.appendList l) := by
+  intro x hx
+  simp only [Impl.Db.appendList, List.mem_append, List.mem_singleton] at hx
+  rcases hx with hx | rfl
+  · exact hdb x hx
+  · exact hl
+
+theorem Impl.Db.append_inv {E : Impl.Env} {db db' : Impl.Db} {t o d : Bytes}
+    (hinv : Impl.Db.Inv db) (ho : o.length = 16)
+    (hidem : E.norm t (E.norm t d) = E.norm t d) (h : db.append E t o d = .ok db') :
+    Impl.Db.Inv db' := by
+  obtain ⟨hs, _, hi⟩ := Impl.Db.append_ok h
+  exact Impl.appendInto_inv hinv ho (Impl.schemes_length t hs) hidem hi
+
+/-- the databases a client can build: start empty or from a decoded duplicate-free stream, then
+    append / remove entries or append whole well-formed lists -/
+inductive Impl.Reachable (E : Impl.Env) : Impl.Db → Prop
+  | empty : Impl.Reachable E []
+  | decoded {bs : Bytes} {db : Impl.Db} :
+      Impl.readDb bs = some db → (∀ l ∈ db, l.sigs.Nodup) → Impl.Reachable E db
+  | append {db db' : Impl.Db} {t o d : Bytes} :
+      Impl.Reachable E db → o.length = 16 → db.append E t o d = .ok db' → Impl.Reachable E db'
+  | remove {db db' : Impl.Db} {t o d : Bytes} :
+      Impl.Reachable E db → db.remove t o d = .ok db' → Impl.Reachable E db'
+  | appendList {db : Impl.Db} {l : Impl.SList} :
+      Impl.Reachable E db → l.Inv → Impl.Reachable E (db.appendList l)
+
+theorem Impl.Reachable.inv {E : Impl.Env} (hidem : E.Idem) {db : Impl.Db}
+    (h : Impl.Reachable E db) : Impl.Db.Inv db := by
+  induction h with
+  | empty => intro l hl; simp at hl
+  | decoded hr hnd => exact Impl.readDb_inv hr hnd
+  | append _ ho ha ih => exact Impl.Db.append_inv ih ho (hidem _ _) ha
+  | remove _ hr ih => exact (Impl.removeFrom_ok ih hr).1
+  | appendList _ hl ih => exact Impl.appendList_inv ih hl
+
+/-- under `Inv`, a 32-bit `listSize` bounds `size` too, except for a list without entries -/
+theorem Impl.SList.Inv.size_lt {l : Impl.SList} (h : l.Inv) (b1 : l.listSize < 2^32)
+    (b2 : l.sigs = [] → l.size < 2^32) : l.size < 2^32 := by
+  have hLS := h.2.2.2.2.1
+  cases hsg : l.sigs with
+  | nil => exact b2 hsg
+  | cons x xs =>
+    rw [hsg, List.length_cons, Nat.succ_mul] at hLS
+    omega
+
+/-! ## concrete values for the non-vacuity examples in the property files -/
+namespace Ex
+
+def owner1 : Bytes := List.replicate 16 0x11
+def owner2 : Bytes := List.replicate 16 0x22
+/-- one SHA-256 entry -/
+def shaList : Impl.SList := ⟨Impl.guidSha256, 76, 0, 48, [], [⟨owner1, List.replicate 32 0xAA⟩]⟩
+/-- two (tiny) X.509 entries of equal size -/
+def x509List : Impl.SList :=
+  ⟨Impl.guidX509, 68, 0, 20, [], [⟨owner1, [1, 2, 3, 4]⟩, ⟨owner2, [5, 6, 7, 8]⟩]⟩
+def db : Impl.Db := [shaList, x509List]
+/-- the wire form of `db`: 144 bytes -/
+def bytes : Bytes := Impl.encDb db
+/-- no input is PEM -/
+def env : Impl.Env := ⟨fun _ => none⟩
+/-- exactly one input is PEM -/
+def pemEnv : Impl.Env := ⟨fun d => if d = [0x2d] then some [0x30, 0x03, 0x02, 0x01] else none⟩
+
+/-- `Except` has no `DecidableEq` in core; the examples compare results of operations by `decide` -/
+scoped instance instDecEqExcept {ε α : Type} [DecidableEq ε] [DecidableEq α] :
+    DecidableEq (Except ε α)
+  | .ok a, .ok b =>
+    if h : a = b then isTrue (by rw [h]) else isFalse (fun e => h (Except.ok.inj e))
+  | .error a, .error b =>
+    if h : a = b then isTrue (by rw [h]) else isFalse (fun e => h (Except.error.inj e))
+  | .ok _, .error _ => isFalse (fun e => nomatch e)
+  | .error _, .ok _ => isFalse (fun e => nomatch e)
+
+theorem env_idem : env.Idem := Impl.Env.idem_of_pem env (fun _ _ h => by simp [env] at h)
+
+theorem pemEnv_idem : pemEnv.Idem := by
+  apply Impl.Env.idem_of_pem
+  intro d x h
+  simp only [pemEnv] at h ⊢
+  split at h
+  · simp only [Option.some.injEq] at h; subst h; decide
+  · simp at h
+
+end Ex
 
 end GoUefi
